@@ -73,7 +73,10 @@ def gen_table(rng, env, g):
         ])
         return dict(tn=tn, raw=raw, kind="noncanonical", t=None)
     if r < 0.75:
-        tn = rng.choice(["foo", "foo<bar>", "my_custom<uint8_t>", "foo<bar<baz>,string>", "Sequence<uint8_t>", "string "])
+        # (names with blanks after commas, leading/trailing blanks, dots: other producers write them; they must come back verbatim)
+        tn = rng.choice(["foo", "foo<bar>", "my_custom<uint8_t>", "foo<bar<baz>,string>", "Sequence<uint8_t>", "string ",
+                         "acme.index<Addr, tuple<acme.key, string>>", "acme.record<UUID, uint64_t>", " foo", "foo<bar >", "a  b<c,  d>",
+                         "foo<bar>\t", "Foo<Bar, Baz>"])
         return dict(tn=tn, raw=rand_bytes(rng, rng.choice([0, 1, 7, 40])), kind="unknown", t=None)
     # partially unknown: well-formed known prefix, then arbitrary bytes
     junk = rand_bytes(rng, rng.choice([1, 5, 30]))
@@ -91,6 +94,9 @@ def gen_table(rng, env, g):
          (1).to_bytes(8, "little") + sraw + (1).to_bytes(8, "little") + (1).to_bytes(8, "little") + b"\x01" + junk),
         ("set<tuple<uint16_t,foo>>", (1).to_bytes(8, "little") + b"\x01\x02" + junk),
         ("sequence<tuple<uint16_t,sequence<foo>>>", (1).to_bytes(8, "little") + b"\x01\x02" + (0).to_bytes(8, "little")),
+        ("mapping<UUID, acme.record>", (1).to_bytes(8, "little") + bytes(range(16)) + junk),
+        ("mapping<UUID, uint64_t>", (1).to_bytes(8, "little") + bytes(range(16)) + (7).to_bytes(8, "little")),
+        ("tuple<uint8_t, uint8_t>", b"\x01\x02"),
     ])
     return dict(tn=tn, raw=raw, kind="partial", t=None)
 
